@@ -66,7 +66,13 @@ FUNCS = {"float": float, "setattr": _setattr, "str": str, "dict": dict, "os.path
          "math.log": math.log, "log": math.log, "math.log2": math.log2, "log2": math.log2, "math.sqrt": math.sqrt,
          "itertools.combinations_with_replacement": itertools.combinations_with_replacement,
          "combinations_with_replacement": itertools.combinations_with_replacement, "itertools.islice": lambda *a: list(itertools.islice(*a)),
-         "islice": lambda *a: list(itertools.islice(*a)), "functools.reduce": reduce, "reduce": reduce}
+         "islice": lambda *a: list(itertools.islice(*a)), "functools.reduce": reduce, "reduce": reduce,
+         "groupby": lambda *a, **k: [(key, list(g)) for key, g in itertools.groupby(*a, **k)],
+         "itertools.groupby": lambda *a, **k: [(key, list(g)) for key, g in itertools.groupby(*a, **k)],
+         "accumulate": lambda *a, **k: list(itertools.accumulate(*a, **k)), "itertools.accumulate": lambda *a, **k: list(itertools.accumulate(*a, **k)),
+         "bisect_right": __import__("bisect").bisect_right, "bisect_left": __import__("bisect").bisect_left,
+         "bisect.bisect_right": __import__("bisect").bisect_right, "bisect.bisect_left": __import__("bisect").bisect_left,
+         "bisect": __import__("bisect").bisect_right, "bisect.bisect": __import__("bisect").bisect_right}
 
 
 def _unk(what):
@@ -479,7 +485,13 @@ class Folder:
     # ------------------------------------------------------------------ statements
     def assign(self, target, value):
         if isinstance(target, ast.Name):
-            self.env[target.id] = value
+            if target.id in self.env.get("__global_names__", ()):
+                try:
+                    self.globals[target.id] = value
+                except TypeError:
+                    raise Unknown("assignment to the global %s" % target.id)
+            else:
+                self.env[target.id] = value
         elif isinstance(target, (ast.Tuple, ast.List)):
             vals = list(value)
             star = [i for i, t in enumerate(target.elts) if isinstance(t, ast.Starred)]
@@ -601,6 +613,10 @@ class Folder:
                 raise Raised(_name(e) if e is not None else "")
             elif isinstance(s, ast.Pass):
                 pass
+            elif isinstance(s, ast.Global):
+                self.env["__global_names__"] = set(self.env.get("__global_names__", ())) | set(s.names)
+                for nm in s.names:
+                    self.env.pop(nm, None)
             elif isinstance(s, ast.FunctionDef):
                 self.helpers[s.name] = s
             elif isinstance(s, ast.Assert):
